@@ -28,7 +28,7 @@ func genCase(t *rapid.T) Case {
 	floats := rapid.SampledFrom([]int{gen.SmallInt, gen.Finite, gen.Finite, gen.Decimalish | gen.SmallInt, gen.FullRange | gen.Denormal | gen.Zeros}).Draw(t, "floats")
 	g := gen.Tree(t, gen.TreeOpts{
 		Layouts: gen.Layouts4, Floats: floats, MaxDepth: 4, MaxParts: 4, MaxPts: 5,
-		Valid: true, FixEmptyCollections: true, FixedCollectionPct: 50, PEmpty: 25,
+		Valid: true, FixEmptyCollections: true, FixedCollectionPct: 50, PEmpty: 25, LongPct: 1, LongMax: 200,
 	})
 	text, err := refwkt.Write(g, func(n int, label string) int { return rapid.IntRange(0, n-1).Draw(t, label) })
 	if err != nil {
